@@ -19,14 +19,14 @@ def prepare(res, harness_names):
     """Build harness binaries and translate the FSM tables.  Returns
     (bins, ok)."""
     try:
-        bins = vlib.build_bins(list(harness_names) + ["gofsm2v"])
+        bins = vlib.build_bins(list(harness_names) + ["gofsm2v", "fsmdump"])
     except vlib.BuildError as e:
         res.violation(None, "harness does not build against the current tree",
                       {"kind": "correspondence-build", "what": e.what, "output": e.output[-4000:]}, no_input=True)
         return None, False
     t_ok, t_out = c01.translate(bins)
     if not t_ok:
-        res.violation(None, "translator gofsm2v cannot render pred_fsm.go (needed for the auditors' tables): " + t_out.strip()[-400:],
+        res.violation(None, "the automata registry cannot be rendered (needed for the auditors' tables): " + t_out.strip()[-400:],
                       {"kind": "translator", "output": t_out[-3000:]}, no_input=True)
         return None, False
     return bins, True
